@@ -53,6 +53,11 @@ type scenario struct {
 	Reselect bool            // silent scripts: the peer deselects and re-selects the session on the same connection just before it goes dark
 	Traffic  []time.Duration // app W-bit sends (prompt replies)
 	PeerData []time.Duration // unsolicited primaries from the peer
+	// Validate: 0 off; 1 session-id validation on from construction; 2 switched on at run time once
+	// Selected. The device session id is then Sess (not 0xFFFF) while every Linktest frame carries
+	// 0xFFFF, as E37 prescribes: validation concerns data messages and must not touch the probes.
+	Validate int
+	Sess     uint16
 }
 
 type probe struct {
@@ -101,6 +106,10 @@ func genScenario(t *core.Tape) scenario {
 		sc.N = 2
 	}
 	sc.Prologue = t.Weighted("scn", 4, 1, 1)
+	sc.Sess = 0xFFFF
+	if sc.Validate = t.Weighted("scn", 3, 1, 1); sc.Validate != 0 {
+		sc.Sess = uint16(1 + t.Choose("scn", 32766))
+	}
 	sc.Life = t.Choose("scn", len(lifeNames))
 	sc.Reselect = t.Choose("scn", 3) == 2
 	sc.SilentAt = time.Duration(500+t.Choose("scn", 2000))*time.Millisecond + 333*time.Microsecond
@@ -136,7 +145,7 @@ func Build(config string) core.BuildFunc {
 			wto = 120 * time.Millisecond
 		}
 		h.r = rig.New(w, rig.Opts{Active: sc.Active, Equip: sc.Equip, T3: 20 * time.Second, T5: time.Second, T6: sc.T6, T7: 5 * time.Second, T8: 5 * time.Second,
-			Linktest: sc.I, LinkThreshold: sc.N, Suppress: &supp, BackoffInit: backoff, BackoffMult: 1, CloseTimeout: time.Second, WriteTimeout: &wto})
+			SessionID: &sc.Sess, ValidateSession: sc.Validate == 1, Linktest: sc.I, LinkThreshold: sc.N, Suppress: &supp, BackoffInit: backoff, BackoffMult: 1, CloseTimeout: time.Second, WriteTimeout: &wto})
 		r := h.r
 		r.P.AutoSelectRsp = 0
 		r.P.AutoLinktest = false
@@ -186,7 +195,7 @@ func (h *harness) describe() map[string]any {
 	sc := h.sc
 
 	return map[string]any{"script": scriptNames[sc.Script], "active": sc.Active, "equip": sc.Equip, "interval": sc.I.String(), "T6": sc.T6.String(), "threshold": sc.N, "suppression": sc.Supp, "prologue": []string{"none", "previous generation dropped by the linktest", "previous generation lost to a failed W-bit write"}[sc.Prologue], "life": lifeNames[sc.Life], "reselect": sc.Reselect,
-		"silentAt": sc.SilentAt.String(), "duration": sc.Dur.String(), "rspDelay": sc.RspDelay.String(), "appSends": len(sc.Traffic), "peerData": len(sc.PeerData)}
+		"silentAt": sc.SilentAt.String(), "duration": sc.Dur.String(), "rspDelay": sc.RspDelay.String(), "sessionValidation": []string{"off", "on", "switched on at run time"}[sc.Validate], "session": sc.Sess, "appSends": len(sc.Traffic), "peerData": len(sc.PeerData)}
 }
 
 // monitor starts the script once the session is Selected.
@@ -201,6 +210,14 @@ func (h *harness) monitor() {
 	}
 	w, sc := h.w, h.sc
 	h.started = true
+	if sc.Validate == 2 {
+		if err := h.r.C.UpdateConfigOptions(hsms.WithSessionIDValidation(true)); err != nil {
+			w.Fail("HARNESS", "UpdateConfigOptions(WithSessionIDValidation): %v", err)
+
+			return
+		}
+		w.Probe("session_validation_switched_on_at_run_time")
+	}
 	h.selAt = w.Now()
 	h.endAt = h.selAt + sc.Dur
 	trafficUntil := h.endAt
@@ -234,7 +251,7 @@ func (h *harness) monitor() {
 		if h.selAt+at < trafficUntil {
 			w.After(at, "peer-data", func() {
 				if h.c.Alive() {
-					h.c.SendFrame(refhsms.DataHeader(0xFFFF, 6, 11, false, h.r.P.NextSys()), refhsms.ASCII("evt"))
+					h.c.SendFrame(refhsms.DataHeader(h.sc.Sess, 6, 11, false, h.r.P.NextSys()), refhsms.ASCII("evt"))
 				}
 			})
 		}
@@ -384,7 +401,7 @@ func (h *harness) onFrame(c *refhsms.Conn, f refhsms.RxFrame) {
 				}
 				switch sc.Life {
 				case 0:
-					c.SendFrame(refhsms.DataHeader(0xFFFF, 6, 11, false, h.r.P.NextSys()), refhsms.ASCII("alive"))
+					c.SendFrame(refhsms.DataHeader(h.sc.Sess, 6, 11, false, h.r.P.NextSys()), refhsms.ASCII("alive"))
 				case 1:
 					c.SendFrame(refhsms.Header{Session: 0xFFFF, SType: refhsms.STLinktestRsp, Sys: f.H.Sys}, nil)
 				case 2:
